@@ -59,6 +59,12 @@ def gen_case(rng, ctx):
         ctx.count("gen:D23xS15")
         return {"ds": ds, "scheme": sch, "dcls": "D23", "scls": scls, "bound": rng.choice([0, 2, 3, 80, 80]),
                 "aux": rng.choice(AUX), "libseed": rng.randrange(10 ** 6), "other": rng.choice(OTHERS)}
+    if rng.random() < 0.06:
+        # every pair inverted as often as not, the decision left to who ranks whom, under schemes whose penalties for
+        # unranked elements are 2^-20 of the others: costs equal up to a relative 1e-6 and different in fact
+        cls, ds = gen.dataset(rng, cls="D25", n=rng.choice([3, 4, 5, 6]), mmax=6)
+        ds = libx.normalise_raw(ds)
+        return {"ds": ds, "scheme": gen.scheme(rng, "S17 S17 S16")[1], "dcls": cls, "scls": "S17", "bound": rng.choice([0, 2, 80, 80]), "aux": rng.choice(AUX), "libseed": rng.randrange(10 ** 6), "other": rng.choice(OTHERS)}
     if rng.random() < 0.4:
         # several non-trivial components of different sizes (blocks of 3 and 4 with pure rotations), bound between the sizes:
         # some components go to the auxiliary algorithm, others to the exact solver, in both orders
@@ -70,7 +76,7 @@ def gen_case(rng, ctx):
                 "aux": rng.choice(AUX), "libseed": rng.randrange(10 ** 6), "other": rng.choice(OTHERS)}
     cls, ds = gen.dataset(rng, classes="D11 D11 D11 D11 D9 D9 D7 D10 D3 D4 D8 D2 D2 D2 D15 D15 D13 D20 D20 D20", nmax=nmax, mmax=6)
     ds = libx.normalise_raw(ds)
-    scls, sch = gen.scheme(rng, "S1 S1 S2 S3 S3 S3 S6 S9 S11 S11")
+    scls, sch = gen.scheme(rng, "S1 S1 S2 S3 S3 S3 S6 S9 S11 S11 S16 S16")
     return {"ds": ds, "scheme": sch, "dcls": cls, "scls": scls, "bound": rng.choice([0, 2, 2, 3, 80]),
             "aux": rng.choice(AUX), "libseed": rng.randrange(10 ** 6), "other": rng.choice(OTHERS)}
 
